@@ -618,6 +618,7 @@ impl ConnectionEngine {
     requires transport.sent@.len() == 0,
     ensures
         r is Ok ==> r->Ok_0.transport.sent@.len() == 1 && r->Ok_0.transport.recv@.len() == transport.recv@.len() + 1 && r->Ok_0.transport.recv@.last().body is Open,   // [C12.open-exchange] the engine is handed out only after the Open exchange
+        r is Ok ==> r->Ok_0.control == control && r->Ok_0.outgoing_session_frames == outgoing_session_frames,       // [C12.connection-wiring.engine-keeps-its-ends] the engine that comes up reads exactly the control queue and the session-frame queue it was given (unit CONNWIRING relies on it)
 //@@ end
 
 //@@ fn file=fe2o3-amqp/src/connection/engine.rs impl=`~impl<Io,C>ConnectionEngine<Io,C>whereIo:AsyncRead+AsyncWrite+std::fmt::Debug+SendBound+Unpin+'static,C:endpoint::Connection<State=ConnectionState>` name=event_loop as=event_loop_tail
